@@ -104,7 +104,11 @@ def run_scenario(item):
                 val = pick(param, st['v'])
                 before = dict(c.server_params)
                 c.server_params.pop(param, None)
-                rep = c.query('SET %s TO %s' % (param, sql_quote(val)))
+                lead = ''
+                if st.get('behind_copy'):
+                    # the SET travels as a later statement of a simple query, behind a COPY whose data comes first
+                    lead = 'COPY t TO STDOUT /*v:rows=2*/; '
+                rep = c.query(lead + 'SET %s TO %s' % (param, sql_quote(val)))
                 ok = rep.end == 'Z' and not rep.errors
                 reported = c.server_params.get(param, '')
                 if param not in c.server_params and param in before:
@@ -189,6 +193,11 @@ def check_c12(prop, tier, seed):
     for it in items[:len(pair)]:
         it['pool_size'] = 1
         it['extra_startup'] = False
+    # every fourth program sends its SETs behind a COPY in the same simple query (same effect on the session, other path
+    # through the reply reader)
+    for j, it in enumerate(items):
+        if j % 4 == 2:
+            it['steps'] = [dict(x, behind_copy=True) if x['op'] == 'set' else x for x in it['steps']]
     results = core.run_parallel(run_scenario, items, workers=14)
     recs = []
     ok = []
